@@ -46,6 +46,7 @@ func main() {
 		fmt.Println("ROLLBACK:", st, fired)
 	}
 	fmt.Println(lab.Project(s))
+	fmt.Println(lab.Srv.Snapshot(s.Name))
 	for _, e := range lab.Srv.Journal() {
 		fmt.Printf("  db c%d %-18s %-12s keys=%v err=%s | %s | %v\n", e.Conn, e.Class, e.Table, e.Keys, e.Err, e.SQL, e.Args)
 	}
